@@ -477,4 +477,36 @@ pub fn decode_ops(v: &[u64]) -> Vec<vh::SymbolOps> {
 }
 
 #[allow(dead_code)]
+/// Column independence on big symbols, evaluated inside the harness (no multi-megabyte case lines):
+/// [K, T, nrepair, seed, col...]: the block's K*T bytes are drawn from `seed` (splitmix64); it is encoded at symbol
+/// size T and, for every listed byte column j, the column alone is encoded at symbol size 1; answer per column:
+/// 1 if byte j of every source and repair packet at size T equals the one-byte packet of the column, else 0.
+pub fn col_indep(a: &[u64]) -> Vec<u64> {
+    let (k, t, nrep, mut st) = (a[0] as usize, a[1] as usize, a[2] as u32, a[3]);
+    let mut next = || {
+        st = st.wrapping_add(0x9E3779B97F4A7C15);
+        let mut z = st;
+        z = (z ^ (z >> 30)).wrapping_mul(0xBF58476D1CE4E5B9);
+        z = (z ^ (z >> 27)).wrapping_mul(0x94D049BB133111EB);
+        z ^ (z >> 31)
+    };
+    let data: Vec<u8> = (0..k * t).map(|_| (next() >> 24) as u8).collect();
+    let c = ObjectTransmissionInformation::new((k * t) as u64, t as u16, 1, 1, 1);
+    let enc = SourceBlockEncoder::new(0, &c, &data);
+    let mut pk = enc.source_packets();
+    pk.extend(enc.repair_packets(0, nrep));
+    let mut out = vec![];
+    for &j in &a[4..] {
+        let j = j as usize;
+        let col: Vec<u8> = (0..k).map(|i| data[i * t + j]).collect();
+        let c1 = ObjectTransmissionInformation::new(k as u64, 1, 1, 1, 1);
+        let e1 = SourceBlockEncoder::new(0, &c1, &col);
+        let mut p1 = e1.source_packets();
+        p1.extend(e1.repair_packets(0, nrep));
+        let ok = pk.len() == p1.len() && pk.iter().zip(p1.iter()).all(|(a, b)| a.payload_id() == b.payload_id() && a.data()[j] == b.data()[0]);
+        out.push(ok as u64);
+    }
+    out
+}
+
 pub fn unused(_: PayloadId) {}
